@@ -127,6 +127,7 @@ class Check:
             "floors": [{"name": n, "measured": m, "floor": f} for n, m, f in self.floors],
             "observations": self.observations[:40],
             "per_rule": {},
+            "rules": dict(self.rules),
             "exhaustive": True,
         }
         for o in self.obs:
